@@ -105,6 +105,7 @@ namespace
             virtual result enact(sqf::runtime::runtime& runtime, sqf::runtime::frame& frame) override
             {
                 auto res = runtime.context_active().pop_value();
+                if (!res.has_value()) { res = value{}; } // a block whose last statement leaves nothing yields nil
                 if (res.has_value())
                 {
                     if (res->is<t_boolean>())
@@ -145,8 +146,9 @@ namespace
         };
 
         auto r = right.data<d_array>();
-        if (r->size() == 0)
-        {
+        if (r->size() == 0 || left.data<d_code, instruction_set>().empty())
+        { // (empty code yields nil for every element: nothing is counted, and a frame without instructions would
+          // restart itself inside frame::next without handing control back to the runtime)
             return 0;
         }
         else
@@ -693,6 +695,7 @@ namespace
             virtual result enact(sqf::runtime::runtime& runtime, sqf::runtime::frame& frame) override
             {
                 auto res = runtime.context_active().pop_value();
+                if (!res.has_value()) { res = value{}; } // a block whose last statement leaves nothing yields nil
                 if (res.has_value())
                 {
                     if (res->is<t_boolean>())
@@ -737,7 +740,7 @@ namespace
             };
         };
         auto arr = left.data<d_array>();
-        if (arr->size() > 0)
+        if (arr->size() > 0 && !right.data<d_code, instruction_set>().empty()) // (empty code selects nothing, see count)
         {
             frame f(runtime.default_value_scope(), right.data<d_code, instruction_set>(), std::make_shared<behavior_select_exit>(arr));
             f["_x"] = arr->at(0);
@@ -917,6 +920,7 @@ namespace
             virtual result enact(sqf::runtime::runtime& runtime, sqf::runtime::frame& frame) override
             {
                 auto res = runtime.context_active().pop_value();
+                if (!res.has_value()) { res = value{}; } // a block whose last statement leaves nothing yields nil
                 if (res.has_value())
                 {
                     auto value = res->data_try<d_boolean, bool>();
@@ -958,7 +962,7 @@ namespace
         };
 
         auto r = left.data<d_array>();
-        if (r->size() > 0)
+        if (r->size() > 0 && !right.data<d_code, instruction_set>().empty()) // (empty code finds nothing, see count)
         {
             frame f(runtime.default_value_scope(), right.data<d_code, instruction_set>(), std::make_shared<behavior_findif_exit>(r));
             f["_x"] = r->at(0);
@@ -1024,6 +1028,7 @@ namespace
             {
                 m_count++;
                 auto res = runtime.context_active().pop_value();
+                if (!res.has_value()) { res = value{}; } // a block whose last statement leaves nothing yields nil
                 if (res.has_value())
                 {
                     auto value = res->data();
@@ -1164,6 +1169,7 @@ namespace
             virtual result enact(sqf::runtime::runtime& runtime, sqf::runtime::frame& frame) override
             {
                 auto res = runtime.context_active().pop_value();
+                if (!res.has_value()) { res = value{}; } // a block whose last statement leaves nothing yields nil
                 if (res.has_value())
                 {
                     m_out.push_back(*res);
@@ -1194,6 +1200,10 @@ namespace
         };
 
         auto arr = left.data<d_array>();
+        if (right.data<d_code, instruction_set>().empty())
+        { // (empty code yields nil for every element, see count)
+            return std::vector<value>(arr->size());
+        }
         if (arr->size() > 0)
         {
             frame f(runtime.default_value_scope(), right.data<d_code, instruction_set>(), std::make_shared<behavior_apply_exit>(arr));
